@@ -299,7 +299,10 @@ def execute(case):
             exp = [canon(a[1]) for a in inputs[i]]
         else:
             got = [canon(o[0]) for o in outputs[i]]
-            exp, _ = local.expected_sync(i, nd, inputs[i], faults.get(i))
+            # (a "viadict" map is two real nodes: arrivals are observed at the second one, behind
+            # the function that fails, so they already are the surviving elements)
+            exp, _ = local.expected_sync(i, nd, inputs[i],
+                                         None if nd["p"].get("f") == "viadict" else faults.get(i))
             exp = [canon(x) for x, _ in exp]
         if got != exp:
             what = "state-changed-by-failure" if i in faults else "output-differs"
